@@ -1945,7 +1945,11 @@ class MindsDBParser(Parser):
 
     @_('INTEGER')
     def integer(self, p):
-        return int(p[0])
+        try:
+            return int(p[0])
+        except ValueError:
+            # more digits than int() converts (the interpreter's limit for int <-> str conversion)
+            raise ParsingException(f'Number is out of range: {p[0][:20]}...')
 
     @_('QUOTE_STRING')
     def quote_string(self, p):
